@@ -58,8 +58,11 @@ def check(ctx, tier):
     obs += ctx.attempt(class_without_instances_row, ctx, "D-j", default=[])
     from ..rules import scanner
     obs += ctx.attempt(scanner.line_reader_split, ctx, "D-j", default=[])      # raw documents are cut at '\\n' only (a literal may hold U+2028 ...)
+    o_given, n_truth = ctx.attempt(null.given_is_not_none, ctx, "D-k", default=([], 0))    # an empty-but-given source is not "no source"
+    obs += o_given
     exceptions.apply(obs)
-    floors = [Floor("R-SIG call sites bound against a signature", len(o_calls), 850),
+    floors = [Floor("R-GIVEN truth-tested operands examined", n_truth, 300),
+              Floor("R-SIG call sites bound against a signature", len(o_calls), 850),
               Floor("R-SIG methods with self-attribute reads", len(o_self), 500),
               Floor("R-NULL classes with optional slots", n_null_classes, 8),
               Floor("R-NULL dereferences of optional slots", len(o_null), 30),
